@@ -141,6 +141,37 @@ def solve(case, **kw):
     return ss, buses, lines
 
 
+def solve_in_system(case, flip=()):
+    """the same network registered in a PowerSystem (the reference bus is flagged first, then buses and lines are added to the
+    system, some lines stored toward the reference bus) and solved on the system itself"""
+    from relsad.loadflow.ac.bfs import run_bfs_load_flow
+    from relsad.network.components import Bus, Line, ManualMainController
+    from relsad.network.systems import PowerSystem
+    from relsad.Time import Time
+    net.reset_counters()
+    n = len(case["parent"])
+    ps = PowerSystem(ManualMainController(name="C", sectioning_time=Time(1)))
+    buses = [Bus(f"B{i}", n_customers=1) for i in range(n)]
+    for i, b in enumerate(buses):
+        b.pload = case["p"][i]; b.qload = case["q"][i]
+        b.pload_pu = b.pload / b.s_ref; b.qload_pu = b.qload / b.s_ref
+        b.pprod = case["pg"][i]; b.qprod = case["qg"][i]
+        b.pprod_pu = b.pprod / b.s_ref; b.qprod_pu = b.qprod / b.s_ref
+    buses[case["slack"]].set_slack()
+    lines = {}
+    for i in range(1, n):
+        a, b = case["parent"][i], i
+        if i in flip:
+            a, b = b, a
+        lines[i] = Line(f"L{i}", buses[a], buses[b], r=case["r"][i] * ZB, x=case["x"][i] * ZB)
+    for b in buses:
+        ps.add_bus(b)
+    for i in range(1, n):
+        ps.add_line(lines[i])
+    run_bfs_load_flow(ps)
+    return ps, buses, lines
+
+
 def result(buses, lines):
     n = len(buses)
     return {"vm": [float(b.vomag) for b in buses], "va": [float(b.voang) for b in buses],
@@ -236,6 +267,17 @@ def handler(case):
         d = maxdiff(base, result(b2, l2))
         if d > tol_meta:
             viols.append(("meta.flip", f"same network with the stored direction of lines {case['flip']} reversed: results differ by {d:.3g} pu"))
+    if case.get("flip") or case.get("order") is not None:
+        # registered in a PowerSystem whose reference bus is flagged before the lines are added; lines next to the reference bus
+        # stored toward it as well
+        toward = tuple(set(case.get("flip") or ()) | {i for i in range(1, n) if case["parent"][i] == s and i % 2 == 1} | ({s} if s != 0 and s % 2 == 0 else set()))
+        try:
+            _, b2, l2 = solve_in_system(case, flip=toward)
+            d = maxdiff(base, result(b2, l2))
+            if d > tol_meta:
+                viols.append(("meta.system", f"same network registered in a PowerSystem (reference bus flagged first, lines {sorted(toward)} stored the other way round): results differ by {d:.3g} pu"))
+        except Exception as e:
+            viols.append(("meta.system-raise", f"same network registered in a PowerSystem: {type(e).__name__}: {str(e)[:80]}"))
     if case.get("reroot") is not None and case["reroot"] != s:
         ss2, b2, l2 = solve(case, slack=case["reroot"])
         b2[case["reroot"]].is_slack = False
